@@ -579,6 +579,40 @@ fn c09(r: &Runner) {
             }
         });
     }
+    // ---- formatting at wide widths: EVERY 2^k - 1, 2^k and EVERY 10^e - 1, 10^e, 10^e + 1 up to the width (the number of
+    // digits is a step function of the bit length: a digit buffer sized from the bit length by an approximation of
+    // log10(2) is one short only in the window between a power of ten and the next power of two)
+    if !SWEEP {
+        for bits in [1024usize, 4096] {
+            let m = pow2(bits);
+            let mut vals: Vec<BigUint> = vec![];
+            for k in 0..=bits {
+                vals.push(pow2(k) - 1u32);
+                if k < bits {
+                    vals.push(pow2(k));
+                }
+            }
+            let mut p = BigUint::from(1u32);
+            while p < m {
+                vals.extend([&p - 1u32, p.clone(), &p + 1u32]);
+                p *= 10u32;
+            }
+            vals.retain(|v| v < &m);
+            vals.sort();
+            vals.dedup();
+            let lv: Vec<Limbs> = vals.iter().map(|v| to_limbs(v, bits)).collect();
+            r.universe(&format!("every 2^k - 1, 2^k, 10^e - 1, 10^e, 10^e + 1 below 2^{bits} ({} values) x 6 traits x 3 specs", lv.len()), bits, lv.len(), |i, l| {
+                let a = vu(&lv[i]);
+                l.states(1);
+                exec(l, bits, Op::to_string, &[a.clone()]);
+                for spec in [0usize, 1, 5] {
+                    for tr in 0..6 {
+                        exec(l, bits, Op::format, &[a.clone(), V::n(spec), V::n(tr)]);
+                    }
+                }
+            });
+        }
+    }
     // ---- parsing
     let chars: Vec<char> = "0123456789abcdefghijklmnopqrstuvwxyzABCDEFGHIJKLMNOPQRSTUVWXYZ_+-/,=\r\n .xé€😀\u{131}\u{141}\u{161}\u{15f}\u{10d}\u{13d}\u{661}\u{12b}\u{12f}\u{1f431}\u{ff11}\u{212a}\u{212b}\u{17f}\u{130}\u{b5}\u{1e9e}\u{ff21}\u{ff41}\u{2160}\u{2170}\u{660}\u{966}\u{b2}\u{2460}\u{1d7ce}\u{3c3}\u{3a3}".chars().collect();
     let mut strs: Vec<String> = vec![String::new()];
